@@ -70,6 +70,8 @@ type hist struct {
 	nCompact, nFlush int
 	failed           bool
 	backdate         func(id uint64) bool // scenario override for the L0->L0 age filter
+	sawL0L0          bool                 // an L0->L0 compaction ran (re-sorts L0 by smallest key: finding F8)
+	sawSkip          bool                 // an L0->Lbase compaction skipped a non-empty level (finding F11)
 }
 
 func entTerm(k []byte, ver uint64, meta, umeta byte, exp uint64, v []byte) string {
@@ -98,6 +100,8 @@ func openSysDB(dir string, o sysOpts) (*badger.DB, error) {
 		WithNumMemtables(8).WithBlockSize(64).WithMetricsEnabled(false).WithCompactL0OnClose(false)
 	if !o.InMemory {
 		opt = opt.WithValueThreshold(o.VThreshold)
+	} else {
+		opt = opt.WithValueThreshold(1024) // the in-memory value limit (default 1 MiB exceeds the batch limit of a 1 MiB memtable)
 	}
 	if len(o.EncKey) > 0 {
 		opt = opt.WithEncryptionKey(o.EncKey).WithIndexCacheSize(1 << 20).WithBlockCacheSize(1 << 20)
@@ -290,8 +294,14 @@ func (h *hist) sigFor(k []byte) string {
 	}
 	for _, n := range seen {
 		if n > 1 {
+			if h.sawL0L0 {
+				return "F8-same-key-version-precedence-flips-after-l0-sort"
+			}
 			return "read-mismatch/same-key-version-written-twice"
 		}
+	}
+	if h.sawSkip {
+		return "F11-l0-to-base-skips-nonempty-level"
 	}
 	return "read-mismatch"
 }
@@ -378,6 +388,16 @@ func (h *hist) iterate(t int, o itOpts, seek []byte) {
 		h.c.Oracle(false, "iter-value-error", "iterator item value could not be read", J{"history": h.desc})
 		return
 	}
+	for _, x := range items {
+		if o.PrefixIsKey && !bytes.Equal(x.Key, o.Prefix) {
+			h.c.Oracle(false, "iter-key-iterator-yields-other-key", "NewKeyIterator yielded a version of another key", J{"history": h.desc, "key": o.Prefix, "got": x.Key})
+			return
+		}
+		if !bytes.HasPrefix(x.Key, o.Prefix) {
+			h.c.Oracle(false, "iter-item-outside-prefix", "an iterator with Prefix yielded a key without that prefix", J{"history": h.desc, "prefix": o.Prefix, "got": x.Key})
+			return
+		}
+	}
 	if all || o.Internal {
 		// every yielded version must be a written one with identical content; order newest first per key
 		ok := true
@@ -434,9 +454,9 @@ func (h *hist) iterate(t int, o itOpts, seek []byte) {
 		h.failed = true
 	}
 	sig := "iter-mismatch"
-	for _, x := range items {
+	for _, x := range append(append([]obsItem{}, items...), wantItems(want)...) {
 		if s := h.sigFor(x.Key); s != "read-mismatch" {
-			sig = "iter-mismatch/same-key-version-written-twice"
+			sig = s
 		}
 	}
 	if o.Since > 0 {
@@ -445,6 +465,14 @@ func (h *hist) iterate(t int, o itOpts, seek []byte) {
 		sig += "/since"
 	}
 	h.c.Oracle(ok, sig, "iterator does not yield exactly the visible keys once, in order", J{"history": h.desc, "want": len(want), "got": len(items)})
+}
+
+func wantItems(ws []refWrite) []obsItem {
+	out := make([]obsItem, len(ws))
+	for i, w := range ws {
+		out[i] = obsItem{Key: w.Key}
+	}
+	return out
 }
 
 func refLatestExact(ws []refWrite, k []byte, ver uint64) *refWrite {
@@ -580,6 +608,7 @@ func (h *hist) compact(level int, l0l0 bool, drop [][]byte) (bool, error) {
 			h.db.VerifBackdateTables(time.Hour, func(id uint64) bool { return all || (id*2654435761+salt)%5 != 0 })
 		}
 	}
+	before := h.db.VerifDump()
 	now := time.Now().Unix()
 	err := h.db.VerifCompact(level, l0l0, drop)
 	if err != nil {
@@ -632,6 +661,16 @@ func (h *hist) compact(level int, l0l0 bool, drop [][]byte) (bool, error) {
 		dp[i] = B(p)
 	}
 	h.nCompact++
+	if info.ThisLevel == 0 && info.NextLevel == 0 {
+		h.sawL0L0 = true
+	}
+	if info.ThisLevel == 0 && info.NextLevel > 1 {
+		for l := 1; l < info.NextLevel; l++ {
+			if len(before[l]) > 0 {
+				h.sawSkip = true
+			}
+		}
+	}
 	h.c.Count(fmt.Sprintf("compact L%d->L%d base=%d", info.ThisLevel, info.NextLevel, h.db.VerifBaseLevel()))
 	h.emit(fmt.Sprintf("(Compact (mkC %d %d %s %s %d %d %s %d %s %s) %s)", info.ThisLevel, info.NextLevel, idList(info.Top), idList(info.Bot),
 		disc, h.o.NKeep, ListOf(dp), now, ListOf(layout), idList(order), ListOf(out)),
